@@ -12,6 +12,9 @@ package main
 //	5  ... answers with an unknown algorithm, or with no cookie at all
 //	6  ... answers a complete exchange with eight genuine cookies that names a
 //	   server which is not an IP address
+//	7  ... a complete exchange with 1..7 genuine cookies
+//	8  ... a complete exchange with eight cookies of another length (100..1000 bytes; nothing
+//	   the server could open)
 
 import (
 	"bufio"
@@ -28,13 +31,14 @@ import (
 
 type keFront struct {
 	e    *env
+	port int    // the NTP port its complete exchanges name
 	ip   net.IP // the address it listens on; the real NTS-KE server of that address is behind it
 	mode atomic.Int64
 	arg  atomic.Int64
 }
 
-func newKeFront(e *env, ip net.IP) *keFront {
-	f := &keFront{e: e, ip: ip}
+func newKeFront(e *env, ip net.IP, port int) *keFront {
+	f := &keFront{e: e, ip: ip, port: port}
 	ln, err := net.Listen("tcp4", net.JoinHostPort(ip.String(), strconv.Itoa(frontPort)))
 	if err != nil {
 		fatal("front: %v", err)
@@ -124,6 +128,23 @@ func (f *keFront) serve(c net.Conn, mode, arg int64) {
 			msg.AddRecord(ntske.Port{Port: relayPort})
 			for i := 0; i < 8; i++ {
 				msg.AddRecord(cookie())
+			}
+			msg.AddRecord(ntske.End{})
+		case 7, 8:
+			msg.AddRecord(ntske.Algorithm{Algo: []uint16{ntske.AES_SIV_CMAC_256}})
+			msg.AddRecord(ntske.Server{Addr: []byte(f.ip.String())})
+			msg.AddRecord(ntske.Port{Port: uint16(f.port)})
+			if mode == 7 {
+				for i := int64(0); i < 1+arg%7; i++ {
+					msg.AddRecord(cookie())
+				}
+			} else {
+				l := []int{100, 128, 200, 896, 900, 1000}[int(uint64(arg)%6)]
+				for i := 0; i < 8; i++ {
+					c := make([]byte, l)
+					crand(c)
+					msg.AddRecord(ntske.Cookie{Cookie: c})
+				}
 			}
 			msg.AddRecord(ntske.End{})
 		}
